@@ -253,7 +253,8 @@ func (relay *Relay) sendMsgWithTimeout(
 	conn *websocket.Conn,
 	msg []byte,
 ) error {
-	if relay.opt.PingDuration > 0 {
+	// the send timeout is independent of whether pings are enabled
+	if relay.opt.SendTimeout > 0 {
 		var cancel context.CancelFunc
 		ctx, cancel = context.WithTimeout(ctx, relay.opt.SendTimeout)
 		defer cancel()
